@@ -105,14 +105,14 @@ def run(ctx):
             cases.append(("ob", ter, 1, 0, s, "trim"))
             cases.append(("sse", ter, 1, 0, s, "trim"))
         for ver in VERS:
-            for kind in (1, 2, 3):
+            for kind in (1, 2, 3, 4):
                 if kind == 2 and ver in ("ob", "fo3"):
                     continue
-                if kind == 3 and ver not in ("ob", "fo3"):
-                    continue
+                if kind in (3, 4) and ver not in ("ob", "fo3"):
+                    continue        # 4 = a NiTexturingProperty as the shape's only property (no material, no shader)
                 if kind == 1 and ver == "sf":
                     continue        # CreateShapeFromData builds no texture-set shader for Starfield
-                slots = {1: [0, 3], 2: [0, 1, 3, 4, 5], 3: [0]}[kind]
+                slots = {1: [0, 3], 2: [0, 1, 3, 4, 5], 3: [0], 4: [0]}[kind]
                 if kind == 2 and ver in ("sk", "sse"):
                     slots = [0, 3]      # the other effect-shader paths are only serialised from FO4 on
                 for j, s in enumerate(sample):
